@@ -308,6 +308,7 @@ def walk(t):
 
 class C30(core.Prop):
     id = "C30"
+    ready = True
     drivers = ["mpi_interp"]
     sizes = {"quick": 700, "thorough": 30000}
     max_workers = 4
